@@ -119,12 +119,16 @@ func (c *Channel) withdrawSubChannel(ctx context.Context, sub *Channel) error {
 	return errors.WithMessage(err, "update parent channel")
 }
 
-func (c *Channel) registerSubChannelFunding(id channel.ID, alloc []channel.Bal) {
+func (c *Channel) registerSubChannelFunding(id channel.ID, initBals channel.Balances) {
 	filter := func(cu ChannelUpdate) bool {
-		expected := *channel.NewSubAlloc(id, alloc, nil)
-		_, containedBefore := c.machine.State().SubAlloc(expected.ID)
+		expected := *channel.NewSubAlloc(id, initBals.Sum(), nil)
+		cur := c.machine.State()
+		_, containedBefore := cur.SubAlloc(expected.ID)
 		subAlloc, containedAfter := cu.State.SubAlloc(expected.ID)
-		return !containedBefore && containedAfter && expected.Equal(&subAlloc) == nil
+		// Every participant must be debited exactly its balance in the sub-channel.
+		debited := cur.Balances.AssertGreaterOrEqual(initBals) == nil &&
+			cur.Balances.Sub(initBals).Equal(cu.State.Balances)
+		return !containedBefore && containedAfter && expected.Equal(&subAlloc) == nil && debited
 	}
 	ui := newUpdateInterceptor(filter)
 	c.subChannelFundings.Register(id, ui)
